@@ -7,7 +7,7 @@
 (* recorded in known_findings.json (see the Dev_ operators for what the     *)
 (* pinned snapshot did instead).                                            *)
 (***************************************************************************)
-EXTENDS Exact
+EXTENDS Exact, Sequences
 
 \* Polygon.signed_area: proj_coord = z, coord1 = x, coord2 = y:
 \*   sum_i x[i+1] * (y[i+2] - y[i]) * (|n| / (2 n_z));   returns twice the value
@@ -54,4 +54,46 @@ AWinding(p, poly) ==
         tot == SumOver(1..n, [i \in 1..n |-> half(i)])
     IN tot \div 2        \* floor division, as numpy's //
 AIsInside(p, poly) == AWinding(p, poly) # 0
+
+(* ---- coxeter/extern/polytri/polytri.py: triangulate (ear clipping), for a polygon in the xy-plane ------------------ *)
+\* calculate_normal_3d (Newell): normal_z = sum (x2 - x1)(y2 + y1) = -2 * signed area
+ANewellZ(poly) == LET n == Len(poly) IN
+    SumOver(1..n, [i \in 1..n |-> (poly[Nxt(i, n)][1] - poly[i][1]) * (poly[Nxt(i, n)][2] + poly[i][2])])
+\* any_point_in_triangle: barycentric coordinates of the other vertices w.r.t. (a; s = b - a, t = c - a), closed test
+\*   ps = cross(p - a, t) / cross(s, t),  pt = cross(s, p - a) / cross(s, t);  inside iff ps >= 0, pt >= 0, ps + pt <= 1
+\* (the fix: commit makes the closed test independent of rounding, which is what exact arithmetic decides)
+ABaryInside(p, a, b, c) ==
+    LET d == (b[1] - a[1]) * (c[2] - a[2]) - (b[2] - a[2]) * (c[1] - a[1])
+        u == (p[1] - a[1]) * (c[2] - a[2]) - (p[2] - a[2]) * (c[1] - a[1])
+        v == (b[1] - a[1]) * (p[2] - a[2]) - (b[2] - a[2]) * (p[1] - a[1])
+    IN IF d > 0 THEN u >= 0 /\ v >= 0 /\ u + v <= d ELSE u <= 0 /\ v <= 0 /\ u + v >= d
+\* one run of the while loop: state (polygon, i, triangles so far); "fail" when the scan index runs off the end.
+\* cross(c - b, b - a)_z = -Orient2(a, b, c), so dot(normal, x) = -normal_z * Orient2(a, b, c); on the lattice a positive
+\* value is at least |normal_z| >= 1e-6 * normal_z^2 for every polygon of area below 5e5, so the threshold is the sign test.
+ADel(s, k) == [j \in 1..Len(s) - 1 |-> IF j < k THEN s[j] ELSE s[j + 1]]
+RECURSIVE ATriLoop(_, _, _, _)
+ATriLoop(pg, i, nz, acc) ==
+    IF Len(pg) <= 2 THEN [ok |-> TRUE, tris |-> acc]
+    ELSE IF i >= Len(pg) THEN [ok |-> FALSE, tris |-> acc]                    \* raise ValueError("Triangulation failed")
+    ELSE LET n == Len(pg)
+             a == pg[(i % n) + 1]  b == pg[((i + 1) % n) + 1]  c == pg[((i + 2) % n) + 1]
+             others == {pg[((i + 3 + k) % n) + 1] : k \in 0..n - 4}
+         IN IF a = b \/ b = c THEN ATriLoop(ADel(pg, ((i + 1) % n) + 1), i, nz, acc)
+            ELSE IF -nz * Orient2(a, b, c) > 0 /\ ~\E p \in others : ABaryInside(p, a, b, c)
+                 THEN ATriLoop(ADel(pg, ((i + 1) % n) + 1), 0, nz, Append(acc, <<a, b, c>>))
+                 ELSE ATriLoop(pg, i + 1, nz, acc)
+ATriangulate(poly) == ATriLoop(poly, 0, ANewellZ(poly), <<>>)
+\* the seeded change "continue from the current corner instead of rescanning" (i %= len after a clip), kept as a named
+\* wrong variant: T1 must refute it on some relabelling of some polygon (non-vacuity of T1_Triangulate)
+RECURSIVE WrongTriLoop(_, _, _, _)
+WrongTriLoop(pg, i, nz, acc) ==
+    IF Len(pg) <= 2 THEN [ok |-> TRUE, tris |-> acc]
+    ELSE IF i >= Len(pg) THEN [ok |-> FALSE, tris |-> acc]
+    ELSE LET n == Len(pg)
+             a == pg[(i % n) + 1]  b == pg[((i + 1) % n) + 1]  c == pg[((i + 2) % n) + 1]
+             others == {pg[((i + 3 + k) % n) + 1] : k \in 0..n - 4}
+         IN IF a = b \/ b = c THEN WrongTriLoop(ADel(pg, ((i + 1) % n) + 1), i, nz, acc)
+            ELSE IF -nz * Orient2(a, b, c) > 0 /\ ~\E p \in others : ABaryInside(p, a, b, c)
+                 THEN WrongTriLoop(ADel(pg, ((i + 1) % n) + 1), i % (n - 1), nz, Append(acc, <<a, b, c>>))
+                 ELSE WrongTriLoop(pg, i + 1, nz, acc)
 =============================================================================
